@@ -140,10 +140,14 @@ TOKEN = re.compile(r'"[^"\n]*"|[A-Za-z_$][A-Za-z0-9_$]*|[0-9][0-9A-Za-z_.]*(?:[e
 def tokens(s):
     out = []
     for t in TOKEN.findall(s):
-        if t == "inf":
+        if t in ("inf", "1e999"):          # Rust's / the repaired printer's spelling of an infinite literal
             t = "Infinity"
         out.append(t)
     return out
+
+
+def drop_inf_sign(ts):
+    return [t for i, t in enumerate(ts) if not (t == "-" and i + 1 < len(ts) and ts[i + 1] == "Infinity")]
 
 
 LIT = re.compile(r'^("[^"]*"|[0-9].*|NaN|Infinity|true|false|null|undefined)$')
@@ -446,8 +450,14 @@ def main():
                 if ta == tb:
                     stats["match"] += 1
                 else:
-                    corr_bad.append({"case": name, "bits": b, "input": js, "impl_output": btxt, "model_output": rtxt, "model_js": mtxt,
-                                     "literal_only": literal_only_diff(ta, tb)})
+                    cb = {"case": name, "bits": b, "input": js, "impl_output": btxt, "model_output": rtxt, "model_js": mtxt,
+                          "literal_only": literal_only_diff(ta, tb)}
+                    if drop_inf_sign(ta) == drop_inf_sign(tb):
+                        # ToInternedString prints the literal -Infinity (only the folder creates it) without its sign:
+                        # the rewrite is the model's, the *printed* AST re-parses as +Infinity (fixes.d/C05-printer-neg-infinity.patch)
+                        cb["class"] = "ast-printer-negative-infinity"
+                        cb["literal_only"] = False
+                    corr_bad.append(cb)
             if changed:
                 stats["programs_changed"] += 1
         for name in ("w:dce-if-true-empty", "w:exp2-valueof", "g0", "g1"):
@@ -592,6 +602,16 @@ def main():
                "how_to_rerun": "./check replay <this file>"}
         run.violation(obj)
     run.cov["phase_s"]["verdicts"] = round(time.time() - t_v, 1)
+    printer_bad = [cb for cb in corr_bad if cb.get("class") == "ast-printer-negative-infinity"]
+    corr_bad = [cb for cb in corr_bad if cb.get("class") != "ast-printer-negative-infinity"]
+    if printer_bad:
+        first = dict(printer_bad[0])
+        first["kind"] = "counterexample"
+        first["obligation"] = "the printed optimized AST denotes the optimized AST (ToInternedString of the folded literal -Infinity keeps its sign)"
+        first["occurrences"] = len(printer_bad)
+        first["fix"] = "fixes.d/C05-printer-neg-infinity.patch"
+        first["how_to_rerun"] = "printf 'ast a 2 z = -1 / 0;\\n' | harness/target/debug/optast   (prints `z = 1e999;`)"
+        run.violation(first)
     if corr_bad:
         # a model/implementation disagreement on the rewrites performed; a property failure was searched above on the same programs
         first = corr_bad[0]
